@@ -7,8 +7,9 @@
   sweeper for its next tick.
 
   Definitions
-    * `mu : BState → Nat`  (TerminatesLemmas.lean) — the measure, a plain SUM of four parts, each of which no action of
-      ANOTHER thread ever raises:
+    * `mu : BState → Nat`  (TerminatesLemmas.lean) — the measure, a plain SUM of four parts (no lexicographic
+      weights): an action lowers the part of its own thread and raises no other part — with one exception that is paid
+      for: an event a client hands to the consumer raises `|bufq|` by one and lowers the client's part by two:
         - clients    `Σ tm_own pc`: own actions left in the call (`multi_get`: three per key still to come), plus one
                      for every event the call may still hand to the consumer (`pool.add` of a full buffer,
                      `buf.send_shutdown`);
@@ -45,8 +46,10 @@
                                                 is not vacuous), and EVERY internal run can be extended to one
                                                 (`C18_layerB_every_run_extends_to_quiescence`)
     * non-vacuity: `C18_layerB_terminates_witness` — a reachable state inside a put WITH EVICTION (worker at `kw.remove`
-      with the victim in hand, a second client at `cmd.send`, a third inside a `get`): `mu = 88`, and a maximal internal
-      run of 19 actions that ends quiescent with the three clients idle (kernel-checked, `decide`)
+      with the victim in hand, a second client at `cmd.send`, a third inside a `get`): `mu = 40`, and a maximal internal
+      run of 17 actions that ends quiescent (`mu = 0`) with the three clients idle (kernel-checked, `decide`);
+      an `example` with a STALE sample entry (the sweeper takes the victim's id out of `kw` before the worker's
+      `kw.remove`): `tm_stale = 1`, `mu = 14`, quiescent after 9 actions
 
   Hypotheses beyond the wording of the property
     * for the DECREASE and the BOUND: none but reachability (used for one invariant, `tm_vnd_reach`: the sample the
@@ -313,6 +316,133 @@ theorem C18_layerB_every_run_extends_to_quiescence {cfg : Cfg} {now : Nat} {seed
     C18_layerB_quiescence_is_reached hseeds hcmd hbuf hpool (mu b1) (Nat.le_refl _) (hrun.reach hr)
   have hall := hrun.append h2
   exact ⟨l2, b', hall, hst, hq, (C18_layerB_internal_runs_are_bounded hr hall).2⟩
+
+/-! ## 4  non-vacuity -/
+
+/-- `cfgQ1` (maximal weight 10, command queue of size 1).  Key 1 (weight 6) is put and stored.  Client 0 puts key 2
+    (weight 6): no room — the worker receives the command, re-checks, reads the space, samples id 1 and pops it: it
+    stands at `kw.remove` of the eviction with the victim in hand.  Client 1 has brought a put of key 3 up to `cmd.send`;
+    client 2 stands at `store.get` of `get(1)`. -/
+def tmSetup : List (Act × Oracle) :=
+  call 0 (.putW 1 100 6 none) 4 ++ workerN 6 ++
+  call 0 (.putW 2 200 6 none) 4 ++
+  [(.worker, noO), (.worker, noO), (.worker, { dk := [false] }),
+   (.worker, { ids := [1], dk := [false], pops := [some 1] })] ++
+  call 1 (.putW 3 300 1 none) 3 ++ call 2 (.get 1) 1
+
+/-- a maximal internal run from there: client 2 reads key 1 (a hit, before the eviction); the worker evicts key 1
+    (`kw.remove`, `wu.sub`, `store.remove`, `wu.space`, `sample.fill`) and admits key 2 (`kw.insert`, `wu.add`,
+    `store.put`); client 1 sends its put; client 2 counts the access and returns; the worker executes the put of key 3 -/
+def tmRun : List (Act × Oracle) :=
+  [(.client 2, noO)] ++ workerN 8 ++ [(.client 1, noO), (.client 2, { pool := [0] })] ++ workerN 6
+
+def WPc.atEvRemove : WPc → Bool
+  | .evRemove _ _ _ _ => true
+  | _ => false
+
+def CPc.atSend : CPc → Bool
+  | .send _ => true
+  | _ => false
+
+/-- what `decide` checks of the state after `tmSetup` -/
+def tmFacts (b : BState) : Bool :=
+  decide (mu b = 40) && decide (¬ Quiescent b) &&
+  (b.w.atEvRemove && (match b.cl[1]? with | some pc => pc.atSend | none => false) &&
+   (match b.w, b.cl[0]?, b.cl[2]? with
+    | WPc.evRemove _ _ _ v, some CPc.idle, some (CPc.getStore _) => decide (v.id = 1)
+    | _, _, _ => false)) &&
+  decide (tmRun.length = 17) &&
+  (match internalRun? b tmRun with
+   | some b' =>
+     decide (Quiescent b') && decide (mu b' = 0) && decide (b'.cl.length = 3) &&
+     decide (b'.g.store.contains 1 = false ∧ b'.g.store.contains 2 = true ∧ b'.g.store.contains 3 = true ∧
+       b'.g.adm.used = 7) &&
+     (match b'.res[1]?, b'.res[2]? with
+      | some [Out.ack _ Status.pending], some [Out.value (some 100)] => true
+      | _, _ => false)
+   | none => false)
+
+/-- **Non-vacuity: a reachable state inside a put WITH EVICTION, its measure, and a maximal internal run to
+    quiescence.**  The worker stands at `kw.remove` of the eviction loop with victim id 1 in hand, client 1 at
+    `cmd.send`, client 2 inside a `get`; `mu = 40` (clients 1 + 3; worker: one command to come at `10 + 5·3`, the
+    command in hand at `6 + 5·1`); the run `tmRun` — 17 internal actions, each enabled — ends in a state where no
+    internal action is enabled: it is quiescent, its measure is 0, the three clients are idle (client 1 got its
+    acknowledgement, client 2 the value 100), key 1 is evicted, keys 2 and 3 are stored. -/
+theorem C18_layerB_terminates_witness :
+    ∃ b b', Reach cfgQ1 0 [1, 2, 3, 4] 3 b ∧ ¬ Quiescent b ∧ mu b = 40 ∧
+      (∃ c e s v, b.w = .evRemove c e s v) ∧ (∃ cmd, b.cl[1]? = some (.send cmd)) ∧
+      InternalRun b tmRun b' ∧ tmRun.length = 17 ∧ tmRun.length ≤ mu b ∧ InternalStuck b' ∧ Quiescent b' ∧
+      mu b' = 0 ∧ (∀ i, i < 3 → b'.cl[i]? = some .idle) := by
+  have hrun : ∃ b, runB (BState.init cfgQ1 0 [1, 2, 3, 4] 3) tmSetup = .ok b ∧ tmFacts b = true := by
+    refine ⟨_, rfl, ?_⟩
+    decide
+  obtain ⟨b, hb, hf⟩ := hrun
+  simp only [tmFacts, Bool.and_eq_true, decide_eq_true_eq] at hf
+  obtain ⟨⟨⟨⟨hmu, hnq⟩, hpos⟩, hlen⟩, hfin⟩ := hf
+  have hr : Reach cfgQ1 0 [1, 2, 3, 4] 3 b := reach_runB _ (.init []) hb
+  cases hir : internalRun? b tmRun with
+  | none => simp [hir] at hfin
+  | some b' =>
+    simp only [hir, Bool.and_eq_true, decide_eq_true_eq] at hfin
+    obtain ⟨⟨⟨⟨hq, hmu'⟩, hcl⟩, _⟩, _⟩ := hfin
+    have hrun' := internalRun?_sound _ hir
+    refine ⟨b, b', hr, hnq, hmu, ?_, ?_, hrun', hlen, by omega, quiescent_stuck hq, hq, hmu', ?_⟩
+    · have h1 := hpos.1.1
+      cases hw : b.w <;> simp [hw, WPc.atEvRemove] at h1
+      exact ⟨_, _, _, _, rfl⟩
+    · have h1 := hpos.1.2
+      cases hc : b.cl[1]? with
+      | none => simp [hc] at h1
+      | some pc =>
+        simp only [hc] at h1
+        cases pc <;> simp [CPc.atSend] at h1
+        exact ⟨_, rfl⟩
+    · intro i hi
+      have hlt : i < b'.cl.length := by omega
+      have hidle := hq.1 b'.cl[i] (List.getElem_mem hlt)
+      rw [List.getElem?_eq_getElem hlt]
+      cases hpc : b'.cl[i] <;> simp [hpc, CPc.atIdle] at hidle
+      rfl
+
+/-- key 1 (weight 6, TTL 5 ns) is put and stored; it expires; the put of key 2 (weight 6) finds no room, the worker
+    samples id 1 and pops it — and BEFORE its `kw.remove` the sweeper visits the expired entry and takes id 1 out of
+    `key_weights` itself (it stands at its `wu.sub`) -/
+def tmSetupStale : List (Act × Oracle) :=
+  call 0 (.putW 1 100 6 (some 5)) 4 ++ workerN 7 ++ [(.advance 10, noO)] ++
+  call 0 (.putW 2 200 6 none) 4 ++
+  [(.worker, noO), (.worker, noO), (.worker, { dk := [false] }),
+   (.worker, { ids := [1], dk := [false], pops := [some 1] })] ++
+  [(.sweeper none, noO), (.sweeper (some 1), noO), (.sweeper none, noO)]
+
+/-- the worker's `kw.remove` finds nothing (a round of the loop that removes nothing from `kw`); the sweeper finishes
+    its eviction and its sweep; the worker re-reads the space, finds room and admits key 2 -/
+def tmRunStale : List (Act × Oracle) :=
+  [(.worker, noO), (.sweeper none, noO), (.sweeper none, noO), (.sweeper none, noO)] ++ workerN 5
+
+/-- **The stale sample entry is reachable** (why `mu` counts `tm_stale`): the worker stands at `kw.remove` with a victim
+    whose id is no longer charged — `kw` is empty, `tm_stale = 1`, `mu = 14` (sweeper 3, worker `6 + 5·1`) — and the
+    maximal internal run `tmRunStale` (9 actions) ends quiescent with key 2 stored and `weight_used = 6`. -/
+example :
+    (match runB (BState.init cfgQ1 0 [1, 2, 3, 4] 3) tmSetupStale with
+     | .ok b =>
+       decide (mu b = 14 ∧ b.g.adm.kw.length = 0 ∧ tm_stale b.g.adm.kw (tm_S b.w) = 1 ∧ tm_U b = 1 ∧ ¬ Quiescent b) &&
+       (match b.w, b.sw with
+        | .evRemove _ _ _ v, .sub _ _ _ id _ => decide (v.id = 1 ∧ id = 1)
+        | _, _ => false) &&
+       (match internalRun? b tmRunStale with
+        | some b' =>
+          decide (Quiescent b' ∧ mu b' = 0 ∧ tmRunStale.length = 9 ∧ b'.g.store.contains 2 = true ∧
+            b'.g.store.contains 1 = false ∧ b'.g.adm.used = 6)
+        | none => false)
+     | _ => false) = true := by decide
+
+/-- the measure of the initial state is 0, and issuing a request raises it: `issue` is not internal -/
+example : mu (BState.init cfgQ1 0 [1, 2, 3, 4] 3) = 0 := by decide
+
+example :
+    (match stepB (BState.init cfgQ1 0 [1, 2, 3, 4] 3) (.issue 0 (.putW 1 100 6 none)) noO with
+     | .ok (b, _) => decide (mu b = 5 + 1 * (10 + 5 * (0 + 1 + 0)))
+     | _ => false) = true := by decide
 
 end B
 end Cached
